@@ -4,6 +4,8 @@ use crate::number::{Exactness, Number};
 use crate::vm::builtin::{pop_argc, pop_integer, pop_number, pop_string, pop_usize};
 use crate::vm::vcell::VCell;
 use crate::vm::Vm;
+use num::bigint::BigInt;
+use num::{Integer, ToPrimitive};
 
 pub fn load_builtins(vm: &mut Vm) {
     vm.load_builtin("*", multiply);
@@ -219,6 +221,31 @@ pub fn divide(vm: &mut Vm) -> Result<VCell, Error> {
     }
 }
 
+/// Exact Integer Operands
+///
+/// The operands of quotient, remainder and modulo as big integers if both
+/// are exact integers (in any representation), so that the result is
+/// computed exactly, without 32 or 64 bit intermediate overflow.
+fn exact_integer_operands(x: &Number, y: &Number) -> Option<(BigInt, BigInt)> {
+    fn to_bigint(num: &Number) -> Option<BigInt> {
+        match num {
+            Number::Fixnum(num) => Some(BigInt::from(*num)),
+            Number::BigInt(num) => Some((**num).clone()),
+            Number::Rational(num) if num.is_integer() => Some(BigInt::from(*num.numer())),
+            _ => None,
+        }
+    }
+    Some((to_bigint(x)?, to_bigint(y)?))
+}
+
+/// The most compact exact integer representation of num
+fn exact_integer_result(num: BigInt) -> Number {
+    match num.to_i64() {
+        Some(num) => Number::Fixnum(num),
+        None => num.into(),
+    }
+}
+
 pub fn remainder(vm: &mut Vm) -> Result<VCell, Error> {
     pop_argc(vm, 2, Some(2), "remainder")?;
     let y = pop_integer(vm)?;
@@ -226,6 +253,10 @@ pub fn remainder(vm: &mut Vm) -> Result<VCell, Error> {
 
     if y.is_zero() {
         return Err(InvalidSyntax("remainder is undefined for 0".into()));
+    }
+
+    if let Some((x, y)) = exact_integer_operands(&x, &y) {
+        return Ok(exact_integer_result(x % y).into());
     }
 
     let result = match &x % &y {
@@ -249,6 +280,10 @@ pub fn modulo(vm: &mut Vm) -> Result<VCell, Error> {
         return Err(InvalidSyntax("modulo is undefined for 0".into()));
     }
 
+    if let Some((x, y)) = exact_integer_operands(&x, &y) {
+        return Ok(exact_integer_result(x.mod_floor(&y)).into());
+    }
+
     let result = match x.modulo(&y) {
         Some(num) => num,
         None => {
@@ -268,6 +303,10 @@ pub fn quotient(vm: &mut Vm) -> Result<VCell, Error> {
 
     if y.is_zero() {
         return Err(InvalidSyntax("quotient is undefined for 0".into()));
+    }
+
+    if let Some((x, y)) = exact_integer_operands(&x, &y) {
+        return Ok(exact_integer_result(x / y).into());
     }
 
     let result = match x.quotient(&y) {
